@@ -134,7 +134,7 @@ func c11Exec(c fw.Case) *fw.Result {
 		if c.Int("stamp") == 1 {
 			reg = hist.Stamp
 		}
-		h := hist.Burst(c.Int("way") == 1, reg, int(c.Int("n")), int(c.Int("idx")))
+		h := hist.BurstZ(c.Int("way") == 1, reg, int(c.Int("n")), int(c.Int("idx")), c.Int("zones") == 1)
 		run := c11One(res, h, gen.New(1, "c11burst"), "enumerated same-instant burst")
 		res.Sample = map[string]any{"history": h, "observed": run.Observed()}
 	case "corner":
@@ -203,6 +203,9 @@ func c11Cases(tier string, seed uint64) []fw.Case {
 			for _, idx := range []int64{1, 2, 3} {
 				for _, n := range []int64{2, 5, 7, 8, 11, 14} {
 					cs = append(cs, fw.Case{Kind: "burst", P: map[string]int64{"way": way, "stamp": stamp, "n": n, "idx": idx}})
+					if n >= 7 { // the same burst with the shared second expressed in rotating time zones
+						cs = append(cs, fw.Case{Kind: "burst", P: map[string]int64{"way": way, "stamp": stamp, "n": n, "idx": idx, "zones": 1}})
+					}
 				}
 			}
 		}
@@ -231,11 +234,11 @@ func init() {
 		Level: "exploration",
 		Rule: "generated edit histories (ways over nodes, relations over node/way/relation members; 1-6 parent versions, 1-8 children with repeats, 1-10(+1) versions per child; " +
 			"edits before/between/after/at the instant of parent versions and at window edges; deletions, undeletions, children entering and leaving, deleted parent versions; " +
-			"commit-time regime and timestamp regime with thresholds {0,1s,30s,30min(default or explicit),2h}; options IgnoreInconsistency, IgnoreMissingChildren, ChildFilter with pre-annotated input) " +
+			"commit-time regime and timestamp regime with thresholds {0,1s,30s,30min(default or explicit),2h}; in 40% of the histories the timestamps / commit times are expressed in mixed time.Locations (UTC, fixed zones, same offset with another name, offset 0 that is not UTC, Local) without changing the instants; options IgnoreInconsistency, IgnoreMissingChildren, ChildFilter with pre-annotated input) " +
 			"plus an enumerated family of same-instant bursts (n versions in one second x child at 1-3 indices) and corner inputs (empty history, failing datasource, mixed regimes: run only). " +
 			"Each history is annotated once; oracles: base child and update set per (parent version, index) against the reference (exact for the commit regime and for well-separated windows, acceptable-set otherwise), " +
 			"error class justified by the history, untouched references (deleted parents, filtered, missing), and time travel: ApplyUpdatesUpTo(t) on a clone for sampled t in [T_i, T_i+1 - eps) compared with the version in effect at t. " +
-			"Signature = (parent kind, regime, threshold, #parent versions, option set, outcome class, strict/permissive); pattern classes used (at, fwd, foreign, inwin, edge, samesec, del, undel, enter, leave, repeat, pdel, late-create, after-last, pre, missing, empty) and their combinations are counted separately.",
+			"Signature = (parent kind, regime, threshold, #parent versions, option set, outcome class, strict/permissive); pattern classes used (at, fwd, foreign, inwin, edge, samesec, samesec-zones, zones, del, undel, enter, leave, repeat, pdel, late-create, after-last, pre, missing, empty) and their combinations are counted separately.",
 		Assumptions: []string{
 			"child version times are non-decreasing in version order and parent version times strictly increase (histories with clocks running backwards are not generated)",
 			"a history is in one regime: all elements carry commit times on or after osm.CommitInfoStart (timestamps too), or none does; mixed-regime histories (incl. timestamp < CommitInfoStart <= committed) are executed (must not panic) but not asserted",
